@@ -57,10 +57,10 @@ def theorem_names(src):
     return names
 
 
-def assumed_tokens():
+def assumed_tokens(path=None):
     """{function: [token, ...]} parsed from coq/limiter/SourceShape.v (only used to word the mismatch message;
     the verdict itself is the Coq lemma)."""
-    src = open(os.path.join(fw.project_dir(PROJ), "SourceShape.v")).read()
+    src = open(path or os.path.join(fw.project_dir(PROJ), "SourceShape.v")).read()
     i = src.index("Definition assumed")
     j = src.index("(* ------", i)
     res, cur = {}, None
